@@ -89,6 +89,8 @@ func (dec *Decoder) decodeComplex128(t reflect.Type, tag byte, p *complex128) {
 		return
 	}
 	switch tag {
+	case TagNull:
+		*p = 0
 	case TagEmpty, TagFalse:
 		*p = 0
 	case TagTrue:
